@@ -4,12 +4,13 @@
    [unstrict s] ends in exactly the [unstrict] of the resulting state — every register, PC, PSR,
    saved SP, memory word, device, frame, observer entry, counter — with the same outcome; and if
    it is rejected, either with one of the strict (uninitialised-value) errors, or the non-strict
-   step fails with the same error in the same state.  The third sentence of the property (no
-   strict error on a fully initialised machine) is checked on the implementation by harness area
-   simprops (runs on fully initialised machines); its Coq statement is pending. *)
+   step fails with the same error in the same state.  And on a machine whose registers, saved
+   stack pointer and memory words are all fully initialised, no step — under any flags, any
+   environment, any instruction or interrupt — reports a strict error, and the machine stays
+   fully initialised (so this holds for runs of any length). *)
 From Coq Require Import ZArith List Bool.
 From Model Require Import Bits Word Instr Sim.
-From Proofs Require Import SimStrict.
+From Proofs Require Import SimStrict SimInit.
 Open Scope Z_scope.
 
 Theorem C14_strict_only_adds_strict_errors : forall e s,
@@ -35,3 +36,25 @@ Print Assumptions C14_strict_error_kinds.
 Theorem C14_exec_simulation : forall e i s, Rel (exec e i) (exec e i) s.
 Proof. exact rel_exec. Qed.
 Print Assumptions C14_exec_simulation.
+
+(* third sentence: a fully initialised machine never sees a strict error, and stays initialised *)
+Theorem C14_initialized_machine_no_strict_error : forall e s,
+  AI s -> AI (fst (step_in e s)) /\ (forall x, snd (step_in e s) = OErr x -> is_strict_err x = false).
+Proof. exact init_machine_no_strict_error. Qed.
+Print Assumptions C14_initialized_machine_no_strict_error.
+
+Theorem C14_AI_meaning : forall s, AI s <->
+  (List.length (s_regs s) = 8%nat /\ Forall (fun w => w_init w = 65535) (s_regs s)
+   /\ w_init (s_saved_sp s) = 65535 /\ forall a, w_init (mget (s_mem s) a) = 65535).
+Proof.
+  intros s. unfold AI, is_init. change ALL_BITS with 65535. split.
+  - intros (L & R & S & M). repeat split; try assumption.
+    + eapply Forall_impl; [|exact R]. intros w H. apply Z.eqb_eq. exact H.
+    + apply Z.eqb_eq. exact S.
+    + intros a. apply Z.eqb_eq. apply M.
+  - intros (L & R & S & M). repeat split; try assumption.
+    + eapply Forall_impl; [|exact R]. intros w H. apply Z.eqb_eq. exact H.
+    + apply Z.eqb_eq. exact S.
+    + intros a. apply Z.eqb_eq. apply M.
+Qed.
+Print Assumptions C14_AI_meaning.
